@@ -283,6 +283,8 @@ def rule_product_board(ctx, M, fn, pr, turn_f, river_f):
         lp = [lp for lp in entry_loops if pushes[0][0] in lp.body][0]
         src, chain = lp.chain()
         bad_adaptors = [c for c in chain if c.rsplit("::", 1)[-1] in ("rev", "skip", "take", "step_by", "filter", "zip", "chain", "skip_while", "take_while")]
+        if [c.rsplit("::", 1)[-1] for c in bad_adaptors] == ["zip"] and zip_with_counters(M, lp):
+            bad_adaptors = []      # entries.iter().zip(counters.iter()): one counter per player, both sized by the players
         if bad_adaptors:
             okp = False
         pushed = P.strip(pr.operand(pushes[0][1]["args"][1]))
@@ -293,6 +295,33 @@ def rule_product_board(ctx, M, fn, pr, turn_f, river_f):
                       fn=fn.path, file=fn.file, line=fn.line)
     if okb and okst and okp:
         ctx.ok(rule_b, {"board": "[b0,b1,b2,b3,b4]", "b3": "deck[turn]", "b4": "deck[river]", "combos": "pushed in player order"}, sample=True)
+
+
+def zip_with_counters(M, lp):
+    """the loop iterates `entries.iter().zip(counters.iter())` and the constructor creates exactly one counter per player
+    (vec![0; players.len()]), so the zip drops nobody"""
+    zc = [s_ for s_ in P.walk(lp.iter_term) if s_[0] == "call" and s_[1].rsplit("::", 1)[-1] == "zip" and len(s_[2]) == 2]
+    if len(zc) != 1:
+        return False
+    a_src, a_ch = L.iterator_chain(zc[0][2][0])
+    b_src, b_ch = L.iterator_chain(zc[0][2][1])
+    plain = lambda ch: all(c_.rsplit("::", 1)[-1] in ("iter", "into_iter", "deref", "copied", "cloned") for c_ in ch)
+    if not (plain(a_ch) and plain(b_ch)):
+        return False
+    srcs = {P.strip(a_src), P.strip(b_src)}
+    if srcs != {M.self_field(M.f_entries), M.self_field(M.f_counters)}:
+        return False
+    pc = P.Prov(M.ctor)
+    ret = pc.local(0)
+    if not (ret[0] == "agg" and ret[1].startswith("adt:" + M.iter_ty)):
+        return False
+    ct = P.strip(ret[2][M.f_counters], calls=False)
+    players_field, _board_field = F_evaluator_fields(M)
+    if not (ct[0] == "call" and ct[1] == "std::vec::from_elem" and len(ct[2]) == 2):
+        return False
+    ln = P.strip(ct[2][1])
+    return ln[0] == "call" and ln[1].rsplit("::", 1)[-1] == "len" and \
+        P.strip(ln[2][0]) in (("field", ("deref", ("param", 1)), players_field), ("field", ("param", 1), players_field))
 
 
 def rule_odometer(ctx, M, fn, pr, store_fns=None):
